@@ -813,7 +813,7 @@ func (r *Regex) ReplaceAllLiteral(src, repl []byte) []byte {
 		// This matches Go stdlib behavior (see FindAllIndex for details).
 		//nolint:gocritic // badCond: intentional - checking empty match at lastMatchEnd
 		if start == end && start == lastMatchEnd {
-			pos++
+			pos = stepEmptyMatch(src, pos)
 			if pos > len(src) {
 				break
 			}
@@ -836,7 +836,7 @@ func (r *Regex) ReplaceAllLiteral(src, repl []byte) []byte {
 
 		switch {
 		case start == end:
-			pos = end + 1
+			pos = stepEmptyMatch(src, end)
 		case end > pos:
 			pos = end
 		default:
@@ -884,7 +884,7 @@ func (r *Regex) ReplaceAllLiteralString(src, repl string) string {
 
 		//nolint:gocritic // badCond: intentional - checking empty match at lastMatchEnd
 		if start == end && start == lastMatchEnd {
-			pos++
+			pos = stepEmptyMatch(b, pos)
 			if pos > len(src) {
 				break
 			}
@@ -906,7 +906,7 @@ func (r *Regex) ReplaceAllLiteralString(src, repl string) string {
 
 		switch {
 		case start == end:
-			pos = end + 1
+			pos = stepEmptyMatch(b, end)
 		case end > pos:
 			pos = end
 		default:
@@ -1122,7 +1122,7 @@ func (r *Regex) ReplaceAll(src, repl []byte) []byte {
 		// This matches Go's stdlib behavior for preventing duplicate empty matches.
 		//nolint:gocritic // badCond: intentional - checking empty match at lastNonEmptyMatchEnd
 		if absStart == absEnd && absStart == lastNonEmptyMatchEnd {
-			pos++
+			pos = stepEmptyMatch(src, pos)
 			if pos > len(src) {
 				break
 			}
@@ -1146,7 +1146,7 @@ func (r *Regex) ReplaceAll(src, repl []byte) []byte {
 		switch {
 		case absStart == absEnd:
 			// Empty match: advance by 1 to avoid infinite loop
-			pos = absEnd + 1
+			pos = stepEmptyMatch(src, absEnd)
 		case absEnd > pos:
 			pos = absEnd
 		default:
@@ -1206,7 +1206,7 @@ func (r *Regex) ReplaceAllFunc(src []byte, repl func([]byte) []byte) []byte {
 
 		//nolint:gocritic // badCond: intentional - checking empty match at lastMatchEnd
 		if start == end && start == lastMatchEnd {
-			pos++
+			pos = stepEmptyMatch(src, pos)
 			if pos > len(src) {
 				break
 			}
@@ -1228,7 +1228,7 @@ func (r *Regex) ReplaceAllFunc(src []byte, repl func([]byte) []byte) []byte {
 
 		switch {
 		case start == end:
-			pos = end + 1
+			pos = stepEmptyMatch(src, end)
 		case end > pos:
 			pos = end
 		default:
@@ -1280,7 +1280,7 @@ func (r *Regex) ReplaceAllStringFunc(src string, repl func(string) string) strin
 
 		//nolint:gocritic // badCond: intentional - checking empty match at lastMatchEnd
 		if start == end && start == lastMatchEnd {
-			pos++
+			pos = stepEmptyMatch(b, pos)
 			if pos > len(src) {
 				break
 			}
@@ -1302,7 +1302,7 @@ func (r *Regex) ReplaceAllStringFunc(src string, repl func(string) string) strin
 
 		switch {
 		case start == end:
-			pos = end + 1
+			pos = stepEmptyMatch(b, end)
 		case end > pos:
 			pos = end
 		default:
@@ -1554,7 +1554,7 @@ func (r *Regex) AllIndex(b []byte) iter.Seq[[2]int] {
 			// This matches Go stdlib behavior.
 			//nolint:gocritic // badCond: intentional - checking empty match at lastMatchEnd
 			if start == end && start == lastMatchEnd {
-				pos++
+				pos = stepEmptyMatch(b, pos)
 				if pos > len(b) {
 					return
 				}
@@ -1567,7 +1567,7 @@ func (r *Regex) AllIndex(b []byte) iter.Seq[[2]int] {
 				lastMatchEnd = end
 			}
 			if end == pos {
-				pos++
+				pos = stepEmptyMatch(b, pos)
 			} else {
 				pos = end
 			}
@@ -1734,4 +1734,15 @@ func MatchReader(pattern string, r io.RuneReader) (matched bool, err error) {
 		return false, err
 	}
 	return re.MatchReader(r), nil
+}
+
+// stepEmptyMatch returns the position at which the scan resumes after an empty
+// match at pos: one whole code point further (one byte for an ill-formed
+// sequence or at the end of the input), as regexp does.
+func stepEmptyMatch(b []byte, pos int) int {
+	if pos < len(b) {
+		_, width := utf8.DecodeRune(b[pos:])
+		return pos + width
+	}
+	return pos + 1
 }
